@@ -172,3 +172,39 @@ package age
 //@   loop 1 decreases len(stanzas) - rangeindex
 //@   ensures#alone (len(stanzas) != 1 && (exists j in 0..len(stanzas) :: stanzas[j].Type == "scrypt")) ==> fk == nil && err != nil && !wraps(err, ErrIncorrectIdentity) && $scryptcalls == old($scryptcalls)   [C10]
 //@   ensures#nil err != nil ==> fk == nil                                                                                           [C01 C04]
+
+//@ func Encrypt(dst, recipients) (wc, err)
+//@   requires dst != nil && (forall j in 0..len(recipients) :: recipients[j] != nil)
+//@   loop 1 invariant -1 <= rangeindex && rangeindex < len(recipients) && hdr != nil && len(fileKey) == 16 && (forall j in 0..len(hdr.Recipients) :: hdr.Recipients[j] != nil)
+//@   loop 1 invariant#sep unchanged(recipients) && disjoint(hdr.Recipients, recipients) && disjoint(fileKey, hdr.Recipients) && rg(fileKey) != 0
+//@   loop 1 invariant#nowrite dst.$out == old(dst.$out) && $hmarshal == old($hmarshal)                                              [C11 C13]
+//@   loop 1 invariant#key bytes(fileKey) == csprng(old($draws), 16) && $draws > old($draws)                                         [C01 C06]
+//@   loop 1 invariant#sorted $sortn == old($sortn) + rangeindex + 1                                                                 [C11]
+//@   loop 1 decreases len(recipients) - rangeindex
+//@   loop 2 invariant -1 <= rangeindex && rangeindex < len(stanzas) && hdr != nil && len(fileKey) == 16 && (forall j in 0..len(hdr.Recipients) :: hdr.Recipients[j] != nil)
+//@   loop 2 invariant#stz forall j in 0..len(stanzas) :: stanzas[j] != nil
+//@   loop 2 invariant#sep unchanged(recipients) && disjoint(hdr.Recipients, recipients) && disjoint(fileKey, hdr.Recipients) && rg(fileKey) != 0
+//@   loop 2 invariant#sep2 len(stanzas) == 0 || disjoint(hdr.Recipients, stanzas)
+//@   loop 2 invariant#outer 0 <= i && i < len(recipients)
+//@   loop 2 invariant#nowrite dst.$out == old(dst.$out) && $hmarshal == old($hmarshal)                                              [C11 C13]
+//@   loop 2 invariant#key bytes(fileKey) == csprng(old($draws), 16) && $draws > old($draws)                                         [C01 C06]
+//@   loop 2 invariant#sorted $sortn == old($sortn) + i + 1                                                                          [C11]
+//@   loop 2 decreases len(stanzas) - rangeindex
+//@   call rand.Read#1 requires same(arg0, fileKey) && len(arg0) == 16                                                                [C05 C06]
+//@   call wrapWithLabels#0 requires same(arg1, fileKey) && bytes(arg1) == csprng(old($draws), 16)                                    [C01 C06]
+//@   call sort.Strings#0 requires same(arg0, l)                                                                                      [C11]
+//@   call slicesEqual#0 requires same(arg0, labels) && same(arg1, l) && i > 0                                                        [C11]
+//@   call headerMAC#1 requires same(arg0, fileKey) && bytes(arg0) == csprng(old($draws), 16) && arg1 == hdr                          [C01 C03 C06]
+//@   call Marshal#1 requires arg0 == hdr && arg1 == dst && same(hdr.MAC, mac)                                                        [C03 C05 C13]
+//@   call rand.Read#2 requires same(arg0, nonce) && len(arg0) == 16                                                                  [C05 C06]
+//@   call Writer).Write#1 requires arg0 == dst && same(arg1, nonce) && bytes(arg1) == csprng($draws - 1, 16) && $draws - 1 > old($draws)   [C05 C06]
+//@   call streamKey#1 requires same(arg0, fileKey) && same(arg1, nonce) && bytes(arg0) == csprng(old($draws), 16) && bytes(arg1) == csprng($draws - 1, 16) && $draws - 1 > old($draws)   [C01 C05 C06]
+//@   call NewWriter#1 requires arg1 == dst                                                                                           [C01 C13]
+//@   ensures#nilxor (wc == nil) <==> (err != nil)                                                                                    [C11 C13 C14]
+//@   ensures#norecipients len(recipients) == 0 ==> err != nil && dst.$out == old(dst.$out)                                           [C11]
+//@   ensures#refuse (err != nil && $hmarshal == old($hmarshal)) ==> dst.$out == old(dst.$out)                                         [C11 C13]
+//@   ensures#sorted err == nil ==> $sortn == old($sortn) + len(recipients)                                                            [C11]
+//@   ensures#out err == nil ==> dst.$out == cat(old(dst.$out), hdrbytes(hdr), " ", b64raw(bytes(hdr.MAC)), "\n", bytes(nonce)) && len(nonce) == 16   [C01 C03 C05 C13]
+//@   ensures#mac err == nil ==> bytes(hdr.MAC) == hmac256(sub(hkdfstream(bytes(fileKey), "", "header"), 0, 32), hdrbytes(hdr))       [C01 C03 C05]
+//@   ensures#writer err == nil ==> typeis(wc, "*filippo.io/age/internal/stream.Writer") && cast(wc, "filippo.io/age/internal/stream.Writer").dst == dst && cast(wc, "filippo.io/age/internal/stream.Writer").a.$key == sub(hkdfstream(bytes(fileKey), bytes(nonce), "payload"), 0, 32) && len(cast(wc, "filippo.io/age/internal/stream.Writer").unwritten) == 0 && cast(wc, "filippo.io/age/internal/stream.Writer").err == nil   [C01 C05 C06 C13]
+//@   ensures#fresh err == nil ==> bytes(fileKey) == csprng(old($draws), 16) && bytes(nonce) == csprng($draws - 1, 16) && $draws - 1 > old($draws)   [C06]
